@@ -446,4 +446,172 @@ theorem nextobjectP_done (st : PState) (toks : List Token) (h : st.results ≠ [
   have : st.results.isEmpty = false := isEmpty_false_of_ne h
   cases toks <;> simp [nextobjectP, this]
 
+/-! ### several top-level objects in a row (PDFStreamParser): state carried from one `nextobject` to the next -/
+
+/-- Between two tokens at top level: no error, no open container, and everything read so far is
+    `results ++ curstack` in order (the operand stack holds only what `flush` held back). -/
+def Top (L : List SObj) (st : PState) : Prop :=
+  st.error = none ∧ st.context = [] ∧ st.results ++ st.curstack = L
+
+theorem flushHold_inv (st : PState) :
+    (flushHold st).results ++ (flushHold st).curstack = st.results ++ st.curstack ∧
+    (flushHold st).error = st.error ∧ (flushHold st).context = st.context := by
+  simp [flushHold, List.append_assoc]
+
+theorem heldCount_snoc_int (xs : List SObj) (a : Int) : 1 ≤ heldCount (xs ++ [.int a]) ∧ heldCount (xs ++ [.int a]) ≤ 2 := by
+  unfold heldCount
+  simp only [List.reverse_append, List.reverse_cons, List.reverse_nil, List.nil_append, List.cons_append]
+  split <;> simp_all
+
+theorem heldCount_snoc_int2 (xs : List SObj) (a b : Int) : heldCount (xs ++ [.int a, .int b]) = 2 := by
+  unfold heldCount
+  simp
+
+theorem heldCount_snoc_other (xs : List SObj) (o : SObj) (h : ∀ v, o ≠ .int v) : heldCount (xs ++ [o]) = 0 := by
+  unfold heldCount
+  simp only [List.reverse_append, List.reverse_cons, List.reverse_nil, List.nil_append, List.cons_append]
+  split
+  · rename_i heq; simp at heq; exact absurd heq.1 (h _)
+  · rename_i heq; simp at heq; exact absurd heq.1 (h _)
+  · rfl
+
+/-- the end of a loop iteration at top level, for any object pushed -/
+theorem top_push (L : List SObj) (st : PState) (o : SObj) (h : Top L st) :
+    Top (L ++ [o]) (flushHold (push st o)) := by
+  obtain ⟨he, hc, hl⟩ := h
+  have hi := flushHold_inv (push st o)
+  refine ⟨by rw [hi.2.1]; simpa [push] using he, by rw [hi.2.2]; simpa [push] using hc, ?_⟩
+  rw [hi.1]; simp [push, ← hl, List.append_assoc]
+
+theorem top_feed_push (L : List SObj) (st : PState) (tok : Token) (o : SObj) (h : Top L st)
+    (hf : feedWith streamDialect st tok = flushHold (push st o)) : Top (L ++ [o]) (feedWith streamDialect st tok) := by
+  rw [hf]; exact top_push L st o h
+
+theorem top_scalar (L : List SObj) (st : PState) (h : Top L st) :
+    (∀ v, Top (L ++ [.int v]) (feedWith streamDialect st (.int v))) ∧
+    (∀ t, Top (L ++ [.real t]) (feedWith streamDialect st (.real t))) ∧
+    (∀ b, Top (L ++ [.bool b]) (feedWith streamDialect st (.bool b))) ∧
+    (∀ x, Top (L ++ [.str x]) (feedWith streamDialect st (.str x))) ∧
+    (∀ n, Top (L ++ [.lit n]) (feedWith streamDialect st (.lit n))) ∧
+    Top (L ++ [.null]) (feedWith streamDialect st (.kwd kwNull)) := by
+  have he := h.1
+  have hc := h.2.1
+  refine ⟨fun v => ?_, fun t => ?_, fun b => ?_, fun x => ?_, fun n => ?_, ?_⟩
+  · exact top_feed_push L st _ _ h (by simp [feedWith, he, push, hc, streamDialect])
+  · exact top_feed_push L st _ _ h (by simp [feedWith, he, push, hc, streamDialect])
+  · exact top_feed_push L st _ _ h (by simp [feedWith, he, push, hc, streamDialect])
+  · exact top_feed_push L st _ _ h (by simp [feedWith, he, push, hc, streamDialect])
+  · exact top_feed_push L st _ _ h (by simp [feedWith, he, push, hc, streamDialect])
+  · have e1 : (kwNull == [91]) = false := by decide
+    have e2 : (kwNull == [93]) = false := by decide
+    have e3 : (kwNull == [60, 60]) = false := by decide
+    have e4 : (kwNull == [62, 62]) = false := by decide
+    have e5 : (kwNull == [123]) = false := by decide
+    have e6 : (kwNull == [125]) = false := by decide
+    have hn : doKeyword st kwNull = push st .null := good_stream.null st
+    exact top_feed_push L st _ _ h (by simp [feedWith, he, e1, e2, e3, e4, e5, e6, hn, push, hc, streamDialect])
+
+/-- `n g R` at top level: the two integers are still on the operand stack when `R` arrives -/
+theorem top_ref (L : List SObj) (st : PState) (n g : Int) (h : Top L st) :
+    Top (L ++ [.ref n]) (feedAllWith streamDialect st [.int n, .int g, .kwd kwR]) := by
+  have h1 := (top_scalar L st h).1 n
+  have f1 : feedWith streamDialect st (.int n) = flushHold (push st (.int n)) := by
+    simp [feedWith, h.1, push, h.2.1, streamDialect]
+  -- after the first integer the stack ends with it
+  obtain ⟨c1, hc1⟩ : ∃ c1, (flushHold (push st (.int n))).curstack = c1 ++ [.int n] := by
+    have hh := heldCount_snoc_int st.curstack n
+    simp only [flushHold, push]
+    generalize heldCount (st.curstack ++ [SObj.int n]) = k at hh
+    have hk : k = 1 ∨ k = 2 := by omega
+    rcases hk with rfl | rfl
+    · exact ⟨[], by simp⟩
+    · refine ⟨st.curstack.drop (st.curstack.length + 1 - 2), ?_⟩
+      simp only [List.length_append, List.length_cons, List.length_nil]
+      rw [List.drop_append_of_le_length (by omega)]
+  obtain ⟨s1, hs1⟩ : ∃ s1, s1 = feedWith streamDialect st (.int n) := ⟨_, rfl⟩
+  rw [← hs1] at h1
+  have hs1c : s1.curstack = c1 ++ [.int n] := by rw [hs1, f1]; exact hc1
+  have h2 := (top_scalar (L ++ [.int n]) s1 h1).1 g
+  have f2 : feedWith streamDialect s1 (.int g) = flushHold (push s1 (.int g)) := by
+    simp [feedWith, h1.1, push, h1.2.1, streamDialect]
+  have hc2 : (flushHold (push s1 (.int g))).curstack = [.int n, .int g] := by
+    have e : (push s1 (.int g)).curstack = c1 ++ [.int n, .int g] := by simp [push, hs1c]
+    simp only [flushHold, e, heldCount_snoc_int2]
+    simp
+  obtain ⟨s2, hs2⟩ : ∃ s2, s2 = feedWith streamDialect s1 (.int g) := ⟨_, rfl⟩
+  rw [← hs2] at h2
+  have hs2c : s2.curstack = [] ++ [.int n, .int g] := by rw [hs2, f2]; simpa using hc2
+  have hk := good_stream.ref s2 [] n g hs2c
+  have e1 : (kwR == [91]) = false := by decide
+  have e2 : (kwR == [93]) = false := by decide
+  have e3 : (kwR == [60, 60]) = false := by decide
+  have e4 : (kwR == [62, 62]) = false := by decide
+  have e5 : (kwR == [123]) = false := by decide
+  have e6 : (kwR == [125]) = false := by decide
+  have f3 : feedWith streamDialect s2 (.kwd kwR) = flushHold (push { s2 with curstack := [] } (.ref n)) := by
+    simp only [streamDialect] at hk
+    simp [feedWith, h2.1, e1, e2, e3, e4, e5, e6, hk, push, h2.2.1, streamDialect]
+  have hres : s2.results = L := by
+    have := h2.2.2
+    rw [hs2c] at this
+    simp only [List.nil_append] at this
+    have e : L ++ [SObj.int n] ++ [SObj.int g] = L ++ [SObj.int n, SObj.int g] := by simp
+    rw [e] at this
+    exact List.append_cancel_right this
+  simp only [feedAllWith_cons, feedAllWith_nil]
+  rw [← hs1, ← hs2, f3]
+  exact top_push L { s2 with curstack := [] } (.ref n) ⟨h2.1, h2.2.1, by simp [hres]⟩
+
+/-- One more top-level object of a stream: whatever is held back, the objects stay in order. -/
+theorem top_ser (L : List SObj) (st : PState) (v : PObj) (hc : clean v) (h : Top L st) :
+    Top (L ++ [norm v]) (feedAllWith streamDialect st (ser v)) := by
+  have hs := top_scalar L st h
+  cases v with
+  | null => simpa [ser, feedAllWith_cons, feedAllWith_nil, norm] using hs.2.2.2.2.2
+  | bool b => simpa [ser, feedAllWith_cons, feedAllWith_nil, norm] using hs.2.2.1 b
+  | int i => simpa [ser, feedAllWith_cons, feedAllWith_nil, norm] using hs.1 i
+  | real t => simpa [ser, feedAllWith_cons, feedAllWith_nil, norm] using hs.2.1 t
+  | str x => simpa [ser, feedAllWith_cons, feedAllWith_nil, norm] using hs.2.2.2.1 x
+  | lit n => simpa [ser, feedAllWith_cons, feedAllWith_nil, norm] using hs.2.2.2.2.1 n
+  | kwd n => simp [clean] at hc
+  | ref n g => simpa [ser, norm] using top_ref L st n g h
+  | arr items =>
+    have ho := feed_open (D := streamDialect) st h.1 [91] .a (Or.inl ⟨rfl, rfl⟩)
+    simp only [clean] at hc
+    simp only [ser, feedAllWith_cons, ho.1, feedAllWith_append]
+    rw [feed_serList good_stream items (startType st .a) ho.2 hc]
+    simp only [feedAllWith_cons, feedAllWith_nil]
+    have e : ({ startType st .a with curstack := (startType st .a).curstack ++ normList items } : PState)
+        = { startType st .a with curstack := normList items } := by simp [startType]
+    rw [e, feed_close_arr st (normList items) h.1, norm]
+    have : closed streamDialect st (.arr (normList items)) = flushHold (push st (.arr (normList items))) := by
+      simp [closed, h.2.1, streamDialect]
+    rw [this]; exact top_push L st _ h
+  | dict es =>
+    have ho := feed_open (D := streamDialect) st h.1 [60, 60] .d (Or.inr ⟨rfl, rfl⟩)
+    simp only [clean] at hc
+    simp only [ser, feedAllWith_cons, ho.1, feedAllWith_append]
+    rw [feed_serEntries good_stream es (startType st .d) ho.2 hc.1]
+    simp only [feedAllWith_cons, feedAllWith_nil]
+    have e : ({ startType st .d with curstack := (startType st .d).curstack ++ pairsOf es } : PState)
+        = { startType st .d with curstack := pairsOf es } := by simp [startType]
+    rw [e, feed_close_dict st es h.1 hc.2.1 hc.2.2, norm]
+    have : closed streamDialect st (.dict (normEntries es)) = flushHold (push st (.dict (normEntries es))) := by
+      simp [closed, h.2.1, streamDialect]
+    rw [this]; exact top_push L st _ h
+
+theorem top_serList : ∀ (vs : List PObj) (L : List SObj) (st : PState), cleanList vs → Top L st →
+    Top (L ++ normList vs) (feedAllWith streamDialect st (serList vs))
+  | [], L, st, _, h => by simpa [serList, feedAllWith_nil, normList] using h
+  | v :: r, L, st, hc, h => by
+    simp only [cleanList] at hc
+    simp only [serList, feedAllWith_append]
+    have h1 := top_ser L st v hc.1 h
+    have h2 := top_serList r (L ++ [norm v]) _ hc.2 h1
+    simpa [normList, List.append_assoc] using h2
+
+theorem finish_top (L : List SObj) (st : PState) (h : Top L st) : (finish st).results = L ∧ (finish st).error = none := by
+  obtain ⟨he, hc, hl⟩ := h
+  simp [finish, he, hc, hl]
+
 end PdfVerif.StackParser
